@@ -604,6 +604,7 @@ type runner struct {
 	backfillR      uint32
 	backfillHeld   []int  // validators that stayed silent, one per backfilling proposal
 	backfillTarget string
+	lastOneVoter   int   // index of the validator of the latest scripted "precommit-one"
 	forceWide      bool  // set while a scripted proposal is built: announce a wide next validator set
 	forceBackfill  []int // set while a scripted proposal is built: keep every entry of the commit proof, add these signers
 
@@ -904,6 +905,16 @@ func (rn *runner) replay(v, c *tmconsensus.VersionedRoundView) {
 	}
 	// variant 10: a header the mirror already holds as a proposed header of this height (this or an earlier round)
 	var known *tmconsensus.ProposedHeader
+	if variant == 12 {
+		// a header of the CURRENT voting round that the view already holds precommits for, replayed with a commit proof
+		// below the majority that adds precommits the view does not hold: refused, and nothing of it may stay behind
+		if phs := rn.knownPHs[hr{H, R}]; len(phs) > 0 {
+			known = &phs[len(phs)-1]
+			rn.stats["replay_of_voted_header_minority"]++
+		} else {
+			return
+		}
+	}
 	if variant == 10 {
 		var cands []tmconsensus.ProposedHeader
 		for rr := uint32(0); rr <= R; rr++ {
@@ -962,6 +973,11 @@ func (rn *runner) replay(v, c *tmconsensus.VersionedRoundView) {
 		flaw = 40 // some invalid signatures
 	case 9:
 		target = "another-block" // no entry for the header itself
+	case 12:
+		idxs = minorityIdx(cur.pows, rn.lastOneVoter)
+		if len(idxs) == 0 {
+			return
+		}
 	}
 	proof := tmconsensus.CommitProof{Round: r, PubKeyHash: string(cur.vs.PubKeyHash),
 		Proofs: map[string][]gcrypto.SparseSignature{target: rn.mkSigsNoKid(cur, kindPrecommit, h, r, target, idxs, flaw)}}
@@ -1352,7 +1368,7 @@ func (rn *runner) step() {
 		rn.script = nil
 	} else if rn.pendingCrash < 0 && w.r.chance(1, templateEvery()) {
 		// interleaving templates; with consumers the races between the state machine and view shifts come first
-		y := w.r.below(8)
+		y := w.r.below(9)
 		if y >= 6 {
 			y += 2
 		}
@@ -1396,6 +1412,11 @@ func (rn *runner) step() {
 			// precommit to the committing view (backfill) while the other adds nothing
 			rn.stats["script_backfill_two_targets"]++
 			rn.script = []string{"propose-wide", "precommit-all", "propose-wide", "precommit-all", "propose", "precommit-nil-one", "precommit-most", "propose-backfill", "gread", "propose-backfill", "smread", "gread"}
+		case y == 10 && replayMode:
+			// one validator's precommit for a proposal is in the view; the same header comes back as a replayed header
+			// whose commit proof is below the majority but carries precommits the view does not hold
+			rn.stats["script_refused_replay_of_voted_header"]++
+			rn.script = []string{"propose", "precommit-one", "replay-voted-minority", "gread", "smread", "precommit-one"}
 		case y == 9:
 			// a fork attempt by a Byzantine majority: a block is committed by a bare quorum, then EVERY validator's
 			// precommit for another block of that height and round arrives late (the committing view now holds more
@@ -1971,6 +1992,33 @@ func backfillPlan(pows []uint64) (nilIdx int, silent, rest []int, ok bool) {
 	return nilIdx, silent, rest, true
 }
 
+// minorityIdx: validators (lowest power first) whose total power stays below the Byzantine majority, among them at
+// least one other than `except`; nil if there is no such set.
+func minorityIdx(pows []uint64, except int) []int {
+	var total uint64
+	for _, p := range pows {
+		total += p
+	}
+	if total == 0 {
+		return nil
+	}
+	maj := tmconsensus.ByzantineMajority(total)
+	var out []int
+	var sum uint64
+	other := false
+	for _, i := range lowestIdx(pows, len(pows)) {
+		if sum+pows[i] < maj {
+			sum += pows[i]
+			out = append(out, i)
+			other = other || i != except
+		}
+	}
+	if !other {
+		return nil
+	}
+	return out
+}
+
 // lowestIdx returns the indices of the k smallest powers (ties: lower index first).
 func lowestIdx(pows []uint64, k int) []int {
 	idx := make([]int, len(pows))
@@ -2015,8 +2063,12 @@ func (rn *runner) scripted(op string, v, c *tmconsensus.VersionedRoundView) bool
 		rn.doEnter(H, R)
 	case "vote-here":
 		rn.doVotes(kindPrevote, H, R, pkh, []voteEntry{{target, rn.mkSigs(cur, kindPrevote, H, R, target, rn.randSubset(n, 1), 0)}})
+	case "replay-voted-minority":
+		rn.forceReplay = 12
+		rn.replay(v, c)
 	case "precommit-one":
 		i := rn.w.r.below(max(n, 1))
+		rn.lastOneVoter = i
 		rn.doVotes(kindPrecommit, H, R, pkh, []voteEntry{{target, rn.mkSigs(cur, kindPrecommit, H, R, target, []int{i}, 0)}})
 	case "precommit-one-for-all":
 		i0 := rn.w.r.below(max(n, 1))
